@@ -78,8 +78,15 @@ func c09History(c *rt.Ctx, fsType string, h int) {
 	viaSub := ""
 	// in one history out of three (MemFS only: OrefaFS has no Sub) work through a view obtained from the RoFS
 	if fsType == "MemFS" && h%3 == 0 {
-		dir := []string{"/", "/w", "/w/a"}[r.IntN(3)]
+		dir := []string{"/", "/w", "/w/a", "/w/b", "/w/ab"}[r.IntN(5)]
+		// the Sub call itself is a call through the read-only file system: the base may not change
+		b0 := fsx.Snap(base, "/", fsx.SnapOpts{Mtime: true, SymSize: true}).String()
 		s, err := ro.Sub(dir)
+		c.Rep.Case(fmt.Sprintf("RoFS/%s|Sub|%v", fsType, err == nil), true)
+		if b1 := fsx.Snap(base, "/", fsx.SnapOpts{Mtime: true, SymSize: true}).String(); b1 != b0 {
+			c.Disagree(fmt.Sprintf("RoFS/%s|Sub|base-changed", fsType), fmt.Sprintf("RoFS over %s: Sub(%q) changed the underlying file system: %v", fsType, dir, diffText(b0, b1)), map[string]any{"fs": fsType, "tree_seed": []uint64{seedA, seedB}, "call": "Sub " + dir})
+			return
+		}
 		if err == nil {
 			t, terr := twin.Sub(dir)
 			if terr == nil {
